@@ -83,10 +83,6 @@ func (p *AV1Payloader) Payload(mtu uint16, payload []byte) (payloads [][]byte) {
 				obuHeader.ExtensionHeader.TemporalID != currentPacketOBUHeader.TemporalID
 		}
 
-		if obuHeader.ExtensionHeader != nil {
-			currentPacketOBUHeader = obuHeader.ExtensionHeader
-		}
-
 		if obuSize > len(payload)-offset {
 			break
 		}
@@ -108,6 +104,12 @@ func (p *AV1Payloader) Payload(mtu uint16, payload []byte) (payloads [][]byte) {
 				newSequence = false
 				currentPacketOBUHeader = nil
 			}
+		}
+
+		// Remember the layer of the packet this OBU goes into; this has to happen after
+		// the reset above, which refers to the packet that was just closed.
+		if obuHeader.ExtensionHeader != nil {
+			currentPacketOBUHeader = obuHeader.ExtensionHeader
 		}
 
 		// The temporal delimiter OBU, if present, SHOULD be removed when transmitting,
